@@ -65,6 +65,8 @@ func dispatch(prop, tier string, seed int64) int {
 		return conc.RunC04(tier, seed)
 	case "C16":
 		return conc.RunC16(tier, seed)
+	case "C05":
+		return conc.RunC05(tier, seed)
 	case "C15":
 		return netx.RunC15(tier, seed, os.Getenv("VERIF_RACE_PASS") != "")
 	case "C13":
